@@ -21,6 +21,24 @@ def check_case(case):
         spec = spec_from_forest(case["f"], case["pal"], case["pol"], case["srs"])
         spec = with_phases(spec, PH2, {case["who"]: case["pc"]})
         phys.solve_and_check(r, spec, ("C02",), case["ta"])
+    elif case["fam"] == "taseq":
+        # ONE system analysed at several ambient temperatures in a row: every table obeys peak = ta + rise for ITS ta
+        from ..sysmodel import build, observe, resolve
+        from ..common import quiet_call
+        r = Res()
+        spec = spec_from_forest(case["f"], case["pal"], 1, SRS)
+        s = build(spec)
+        d = resolve(spec)
+        for ta in (25.0, 70.0, -20.0, 25.0):
+            try:
+                df, _ = quiet_call(s.solve, ta=ta)
+            except (RuntimeError, ValueError):
+                break
+            sub = Res()
+            phys.check_phase(sub, spec, observe(df), "", ta, ("C02",), d)
+            r.stats.update(sub.stats)
+            r.viol += [(("C02.repeated-solve",) + sig, "ta=%g: %s" % (ta, det)) for sig, det in sub.viol if not (sig[0] == "C02.trise")]
+            r.viol += [(sig, det) for sig, det in sub.viol if sig[0] == "C02.trise"]
     elif case["fam"] == "names":
         r = Res()
         spec = spec_from_forest(case["f"], case["pal"], 1, SRS)
@@ -65,6 +83,9 @@ def gen_cases(tier):
                 for c in spec["comps"]:
                     for pc in pc_options(c, PH2)[1:]:
                         yield dict(fam="phase", f=f, pal=pal, pol=1, srs=SRS, n=n, ta=-40.0, who=c["n"], pc=pc)
+        for n in (1, 2):
+            for f in full.iter_forests(n):
+                yield dict(fam="taseq", f=f, pal=pal, pol=1, srs=SRS, n=n, ta=25.0)
         for n in (1, 2, 3):   # components whose NAMES contain the words used by the summary rows
             for f in deep.iter_forests(n):
                 yield dict(fam="names", f=f, pal=pal, pol=1, srs=SRS, n=n, ta=25.0)
